@@ -116,9 +116,10 @@ class Ilp(FunctionContract):
         placed = [x for l in lists for x in l]
         ok = all(isinstance(x, ItemV) for x in placed)
         cnt = [sum([z3.If(p.t == x.t, 1, 0) for p in placed], z3.IntVal(0)) for x in self._xs] if ok else []
-        distinct = z3.Distinct([x.t for x in self._xs]) if len(self._xs) > 1 else z3.BoolVal(True)
+        # two input positions may hold the SAME item (equal numbers in a plain list): its occurrences are then the sum of their copies
+        due = [sum([z3.If(y.t == x.t, cp, 0) for y, cp in zip(self._xs, self._copies)], z3.IntVal(0)) for x in self._xs]
         out.append(("C17:every-item-placed-exactly-copies-times", z3.And(z3.BoolVal(ok and len(placed) == sum(self._copies)),
-                                                                        z3.Implies(distinct, z3.And([cn == cp for cn, cp in zip(cnt, self._copies)] or [z3.BoolVal(True)])))))
+                                                                        z3.And([cn == d for cn, d in zip(cnt, due)] or [z3.BoolVal(True)]))))
         out.append(("C06:sums-describe-the-bins", z3.And([s == sum([L.val(x.t) for x in l], z3.RealVal(0)) for s, l in zip(sums, lists)] or [z3.BoolVal(True)])))
         if len(sums) != k:
             return out
